@@ -171,6 +171,25 @@ def run(ctx):
             raise AnalysisError(f"{ctx.where(f3, e.node)}: self.external is stored conditionally - unsupported shape")
         decide_formula(ctx, f"{f3.qualname} / SIB / external flag", ctx.where(f3, e.node), code, T.b_not(spec), "self.external")
 
+    # ---------------- the two cells an interface separates
+    ctx.clause("internal interfaces separate exactly two cells: own_cells comes from a vertex that only the two cells share")
+    oc = [e for e in s3.stores("own_cells") if e.base == SELF]
+    verts = T.attr(SELF, "vertices")
+    nvert = T.call("len", (verts,))
+    two = T.b_and(T.ige(nvert, 2), T.b_not(T.ige(nvert, 3)))
+    got = {}
+    for e in oc:
+        cs = T.b_and(*e.conds())
+        got["two" if cs == two else "more" if cs == T.b_not(two) else T.show(cs)] = e.value
+    a, b = sorted([T.call("set", (T.attr(T.idx(verts, T.num(0)), "ownCells"),)), T.call("set", (T.attr(T.idx(verts, T.num(1)), "ownCells"),))], key=repr)
+    want_two = T.call("list", (T.call("bitand", (a, b)),))
+    want_two_alt = T.call("list", (T.call("bitand", (a, T.call("set", (T.attr(T.idx(verts, T.num(-1)), "ownCells"),)))),))
+    want_more = T.attr(T.idx(verts, T.call("floordiv", (T.sub(nvert, T.num(1)), T.num(2)))), "ownCells")
+    ok = set(got) == {"two", "more"} and got["two"] in (want_two, want_two_alt) and got["more"] == want_more
+    ctx.check(ok, "FORM", f"{f3.qualname} / FORM / own_cells = cells of the middle vertex (two-point: cells common to both ends), in registration order", ctx.where(f3),
+              "len == 2: list(set(v[0].ownCells) & set(v[1].ownCells)); else vertices[(n-1)//2].ownCells as stored",
+              f"own_cells is {dict((k, T.show(T.alpha(v))[:120]) for k, v in got.items())}")
+
     # ---------------- copy 4: get_border_edge itself
     ctx.clause("border interfaces are those with a vertex in fewer than two cells (get_border_edge)")
     s4 = sym.summarize(repo, GBE)
@@ -310,6 +329,9 @@ def run(ctx):
 
 _F, _E, _V = "forsys/frames.py", "forsys/edge.py", "forsys/virtual_edges.py"
 PINNED = [
+    ("own_cells of a two-point interface from one end only", _E, "self.own_cells = list(set(self.vertices[0].ownCells) & set(self.vertices[1].ownCells))", "self.own_cells = list(set(self.vertices[0].ownCells) & set(self.vertices[0].ownCells))"),
+    ("own_cells sorted by id", _E, "self.own_cells = self.vertices[(len(self.vertices) - 1) // 2].ownCells", "self.own_cells = sorted(self.vertices[(len(self.vertices) - 1) // 2].ownCells)"),
+    ("own_cells from the first vertex", _E, "self.own_cells = self.vertices[(len(self.vertices) - 1) // 2].ownCells", "self.own_cells = self.vertices[0].ownCells"),
     ("lookup by cells uses only the first cell's interior points", _F, "        vertices_in_common = np.intersect1d(c1_vertices, \n                                            c2_vertices)", "        vertices_in_common = np.array(c1_vertices)"),
     ("lookup by cells walks through small edges", _F, "shared_edge = list(set([edge for vid in vertices_in_common for edge in self.vertices[vid].own_big_edges]))", "shared_edge = list(set([edge for vid in vertices_in_common for edge in self.vertices[vid].ownEdges]))"),
     ("Frame ids copy: junction threshold > 1", _F, """        self.internal_big_edges_vertices = [edge for eid, edge in enumerate(self.big_edges_list) 
